@@ -682,7 +682,8 @@ class SoftwareSwitchBase (object):
         if no == in_port: continue
         real_send(port)
     elif out_port == OFPP_CONTROLLER:
-      buffer_id = self._buffer_packet(packet, in_port)
+      # Buffer a copy: the rest of the action list may still modify packet
+      buffer_id = self._buffer_packet(ethernet.unpack(packet.pack()), in_port)
       # Should we honor OFPPC_NO_PACKET_IN here?
       self.send_packet_in(in_port, buffer_id, packet, reason=OFPR_ACTION,
                           data_length=max_len)
